@@ -260,8 +260,10 @@ def run(ctx):
     def killed_something(g):
         if has_fact(g, True, "(0 < nrKilled)"):
             return True
+        # (nrKilled is the result's value - rule nrKilled-from-result - so `nrKilled == 0` false on the success edge says the same)
         return (("maybeNrKilled", True) in g) and any(
-            p is False and k in ("(*maybeNrKilled == 0)", "(0 == *maybeNrKilled)") for k, p in g)
+            p is False and k in ("(*maybeNrKilled == 0)", "(0 == *maybeNrKilled)", "(0 == maybeNrKilled.value())", "(maybeNrKilled.value() == 0)",
+                                 "(nrKilled == 0)", "(0 == nrKilled)") for k, p in g)
     init, v = local_init(tlk, "nrKilled")
     ctx.check(v is not None and re.match(r"^\(maybeNrKilled(\.operator bool\(\)|\.has_value\(\))? \? (\*maybeNrKilled|maybeNrKilled\.value\(\)) : 0\)$", tlk.text(init)) is not None,
               "nrKilled-from-result",
